@@ -34,12 +34,15 @@ harness!(se_h_c20_pred, c20_pred, {
             let ok = run.log.n == 1 && run.log.ev[0].k == K_UNIT && run.log.ev[0].a == c as u32;
             if en.output_encoding().is_ascii_compatible() { reach(70); check(ok, 42); } else { reach(71); check(ok, 43); }
         }
-        2 => { // every 2-byte string decodes to exactly 2 UTF-16 code units (errors count as one U+FFFD)
-            let b0 = sym_u8(0); let b1 = sym_u8(1);
+        2 => { // every byte string decodes to as many UTF-16 code units as it has bytes (errors count as one U+FFFD):
+               // all 2-byte strings, for ISO-2022-JP after a concrete three-byte escape (param 7 = prefix id of c01::put_prefix)
+            let mut s = [0u8; 8];
+            let pl = super::c01::put_prefix(param(7), &mut s);
+            s[pl] = sym_u8(0); s[pl + 1] = sym_u8(1);
             let mut d = en.new_decoder_without_bom_handling();
-            let mut run = Run::new(8);
-            push_replace(&mut d, SK_U16, &[b0, b1], true, &mut run);
-            if en.is_single_byte() { reach(70); check(run.log.n == 2, 44); } else { reach(71); check(run.log.n == 2, 45); }
+            let mut run = Run::new(12);
+            push_replace(&mut d, SK_U16, &s[..pl + 2], true, &mut run);
+            if en.is_single_byte() { reach(70); check(run.log.n == pl + 2, 44); } else { reach(71); check(run.log.n == pl + 2, 45); }
         }
         3 => { // every mappable character encodes to one byte
             let s = sym_u16(0);
